@@ -618,4 +618,11 @@ def c14_j(ctx: Ctx):
         return [ctx.inc(R, f, stars[0], "the tree copy receives **kwargs of unknown content", construct=k)]
     return [ctx.ok(R, f, f.node, "the tree copy of Project.clone fails on an existing destination", construct=k)]
 
-RULES = [c14_a, c14_b, c14_c, c14_d, c14_e, c14_f, c14_g, c14_h, c14_i, c14_j]
+@rule("C14-k")
+def c14_k(ctx: Ctx):
+    """signac sync: the file strategy comes from FileSync, the --key pattern is applied anchored."""
+    from . import cli
+    return cli.sync_strategy_origin(ctx, "C14-k")
+
+
+RULES = [c14_a, c14_b, c14_c, c14_d, c14_e, c14_f, c14_g, c14_h, c14_i, c14_j, c14_k]
